@@ -6,7 +6,7 @@ import setigen as stg
 R = Runner('C11', 'bounded statistical: 2^17-sample frames, df*dt in {1,1.4,2.5,7,51}, seeds from VERIF_SEED; 6-sigma bands from the fourth moments', '2^17 samples per case')
 rng = R.rng
 N = 2 ** 17
-for prod in (1.0, 1.4, 2.5, 7.0, 51.0):
+for prod in (1.0, 1.4, 1.6, 2.5, 2.875, 7.0, 51.0):
     for rep in range(R.n(1, 3)):
         seed = R.seed * 100 + rep * 7 + int(prod * 10)
         fr = stg.Frame(fchans=512, tchans=N // 512, df=prod, dt=1.0, fch1=1e9, seed=seed, t_start=0)
